@@ -381,7 +381,7 @@ var profManifest = Profile{
 	W: map[string]int{"write": 30, "batch": 10, "flush": 16, "compact": 10, "wait": 4, "ingest": 10, "ingestexcise": 4, "excise": 3, "restart": 2},
 	OpW: opWDefault,
 	CrashGen: func(t *rapid.T, o OptPlan) *CrashPlan {
-		return &CrashPlan{Stride: 0, Hot: 1, Surv: []int{0, 1, rapid.IntRange(2, 1000).Draw(t, "csalt")}, MaxImages: 600}
+		return &CrashPlan{Stride: 0, Hot: 1, Surv: []int{0, 1, rapid.IntRange(2, 1000).Draw(t, "csalt")}, MaxImages: 400}
 	},
 	Opt: func(t *rapid.T, o *OptPlan) {
 		o.MaxManifest = rapid.SampledFrom([]int64{1, 1, 300, 4096}).Draw(t, "c22maxman")
@@ -391,6 +391,8 @@ var profManifest = Profile{
 }
 
 func TestC22(t *testing.T) {
+	provPct = 8
+	defer func() { provPct = 0 }()
 	crashCheck(t, "C22", profManifest,
 		"plans dense in version updates (flush, manual compaction, ingest, ingest-and-excise, excise) with tiny MaxManifestFileSize (a MANIFEST rotation on most edits); a crash image is taken before EVERY file-system operation on a MANIFEST, marker, OPTIONS or WAL-control file and before every rename/remove/link/directory sync, for survival subsets {none, all, random}; each image must reopen (the marker resolves to a complete MANIFEST) and its contents must equal a permitted model version: the version before or after the in-flight update, and at least the last acknowledged one. "+
 			"non-trivial = images were taken on manifest/marker operations after a MANIFEST rotation with an acknowledged structural update; distinct = hash of plan JSON",
